@@ -611,7 +611,8 @@ class CooperativeAwarenessMessage:
         """
         heading_confidence = 126
         if epd <= 12.5:
-            heading_confidence = int(epd * 10)
+            # HeadingConfidence: 1 = equal or within 0.1 degree ... 125; 126 = outOfRange
+            heading_confidence = max(1, int(epd * 10))
         return heading_confidence
 
     def __str__(self) -> str:
